@@ -203,11 +203,16 @@ def shard_main(prop, tier, seed, shard, nshards, out, budget_s):
         mod.run(ctx)
         res = ctx.result()
     except BaseException:  # harness error: inconclusive, never a violation
-        res = {
-            'status': 'error',
-            'shard': shard,
-            'traceback': traceback.format_exc()[-6000:],
-        }
+        tb = traceback.format_exc()[-6000:]
+        res = {'status': 'error', 'shard': shard, 'traceback': tb}
+        try:
+            # what the monitors observed before the harness failed is kept (a violation recorded on a real execution stays
+            # a violation; the crash itself only ever makes the run inconclusive)
+            partial = ctx.result()
+            partial.update(status='error', traceback=tb, partial=True)
+            res = partial
+        except BaseException:
+            pass
     with open(out, 'w') as f:
         json.dump(res, f, default=str)
     if dump_cov:
@@ -318,7 +323,8 @@ def run_check(prop, tier, seed):
             r = json.load(open(out))
             if r.get('status') != 'ok':
                 problems.append(f'shard {i} harness error:\n{r.get("traceback", "")}')
-                continue
+                if not r.get('partial'):
+                    continue
             results.append(r)
     finally:
         shutil.rmtree(tmp, ignore_errors=True)
